@@ -327,6 +327,15 @@ type Effects struct {
 	trans   map[*ssa.Function]map[string]bool
 	directR map[*ssa.Function]map[string]bool
 	transR  map[*ssa.Function]map[string]bool
+	pw      map[*ssa.Function]map[int]bool // parameters whose elements the function may write
+}
+
+// WritesParamElems: callee may write the elements of its i-th parameter (receiver included).
+func (e *Effects) WritesParamElems(callee *ssa.Function, i int) bool { return e.pw[callee][i] }
+
+// DirectWritesAny: fn itself (not its callees, except through a slice it hands to a helper) writes the field or its content.
+func (e *Effects) DirectWritesAny(fn *ssa.Function, typeField string) bool {
+	return e.direct[fn][typeField] || e.direct[fn][typeField+"[]"]
 }
 
 // localBase reports whether an address is rooted in a local variable of the function (an Alloc that is not
@@ -424,6 +433,29 @@ func (w *World) effects() *Effects {
 		})
 		e.direct[fn] = d
 		e.directR[fn] = rd
+	}
+	// writes through a slice / pointer parameter (`bind(pb.units, lit)` writes the content of Problem.units): a
+	// fixpoint of "fn writes the elements of its parameter i", then charged to the field the caller hands in
+	pw := w.paramElemWrites()
+	e.pw = pw
+	for _, fn := range w.Fns {
+		for _, ci := range callsIn(fn) {
+			callee := ci.Common().StaticCallee()
+			if callee == nil || pw[callee] == nil {
+				continue
+			}
+			for i, a := range ci.Common().Args {
+				if !pw[callee][i] {
+					continue
+				}
+				if f, ok := rootField(a); ok {
+					if !strings.HasSuffix(f, "[]") {
+						f += "[]"
+					}
+					e.direct[fn][f] = true
+				}
+			}
+		}
 	}
 	// transitive closure over the call graph (incl. closures made and go/defer targets)
 	for _, fn := range w.Fns {
@@ -773,5 +805,72 @@ func (w *World) resultLeaves(v ssa.Value) []ssa.Value {
 		}
 	}
 	rec(v, 0)
+	return out
+}
+
+// paramElemWrites: for every module function, the parameters (by index, receiver included) whose elements it may
+// write: a store through an index / field address derived from the parameter, copy into it, or handing it on to a
+// function that does.
+func (w *World) paramElemWrites() map[*ssa.Function]map[int]bool {
+	out := map[*ssa.Function]map[int]bool{}
+	derivedFrom := func(fn *ssa.Function, v ssa.Value) int {
+		for i := 0; i < 10 && v != nil; i++ {
+			switch x := v.(type) {
+			case *ssa.Parameter:
+				return paramIndex(fn, x)
+			case *ssa.Slice:
+				v = x.X
+			case *ssa.IndexAddr:
+				v = x.X
+			default:
+				return -1
+			}
+		}
+		return -1
+	}
+	for changed, round := true, 0; changed && round < 6; round++ {
+		changed = false
+		for _, fn := range w.Fns {
+			mark := func(i int) {
+				if i < 0 {
+					return
+				}
+				if _, isSlice := fn.Params[i].Type().Underlying().(*types.Slice); !isSlice {
+					return
+				}
+				if out[fn] == nil {
+					out[fn] = map[int]bool{}
+				}
+				if !out[fn][i] {
+					out[fn][i] = true
+					changed = true
+				}
+			}
+			allInstrs(fn, func(ins ssa.Instruction) {
+				switch x := ins.(type) {
+				case *ssa.Store:
+					if ia, ok := x.Addr.(*ssa.IndexAddr); ok {
+						mark(derivedFrom(fn, ia.X))
+					}
+				case *ssa.Call:
+					if b, ok := x.Call.Value.(*ssa.Builtin); ok {
+						if b.Name() == "copy" && len(x.Call.Args) == 2 {
+							mark(derivedFrom(fn, x.Call.Args[0]))
+						}
+						return
+					}
+					callee := x.Call.StaticCallee()
+					if callee == nil || out[callee] == nil {
+						return
+					}
+					for i, a := range x.Call.Args {
+						if out[callee][i] {
+							mark(derivedFrom(fn, a))
+						}
+					}
+				}
+			})
+		}
+	}
 	return out
 }
